@@ -37,8 +37,16 @@ pub fn check_obs(rep: &mut Report, ctx: &serde_json::Value, phonetic: bool, type
             if cands.is_empty() { rep.violation("C02", "empty-list", format!("list suggestion without candidates: {}", ctx), ctx.clone()); }
             if *accessor_panic { rep.violation("C02", "accessor-inconsistent", format!("accessors disagree with the value: {}", ctx), ctx.clone()); }
             if sel_valid && *sel >= cands.len().max(1) {
-                // known finding only in its exact shape: phonetic, a punctuation key of the override set, index = the caller's byte
-                let cls = if phonetic && override_sel == Some(*sel) { "selection-out-of-range-after-punctuation" } else { "selection-out-of-range" };
+                // known finding only in its exact shape: phonetic, a punctuation key of the override set, index = the caller's byte, AND a
+                // reason for the list to be shorter that the unchanged engine has: the key changed the word part (a colon joins it, a mark
+                // after a colon detaches the colon) or the text is / was an emoticon. A punctuation mark that merely trails the word leaves
+                // the list as long as it was — a shorter list there is something else. (Word part by the harness's own splitter.)
+                let reason = typed.map(|cur| {
+                    let prev: String = { let n = cur.chars().count(); cur.chars().take(n.saturating_sub(1)).collect() };
+                    let emo = |x: &str| EMOTICON_KEYS.get().map(|s| s.contains(x)).unwrap_or(true);
+                    split(&prev, false).1 != split(cur, false).1 || emo(&prev) || emo(cur)
+                }).unwrap_or(true);
+                let cls = if phonetic && override_sel == Some(*sel) && reason { "selection-out-of-range-after-punctuation" } else { "selection-out-of-range" };
                 rep.violation("C02", cls, format!("previously selected index {} >= length {}: {}", sel, cands.len(), ctx), ctx.clone());
             }
             if let Some(t) = typed {
@@ -183,7 +191,7 @@ fn systematic(env: &Env, rep: &mut Report, t: &mut Trace, lay: &Layouts, shard: 
                             t.line(&format!("drop {}", s.id));
                             s = match Sess::new(t, &env.data, "c", layout, opts, &xdg) { Some(s) => s, None => return };
                         } else { s.finish(t); }
-                        s.events.clear();
+                        s.clear_events();
                         rep.count("systematic-key");
                     }
                 }
@@ -248,6 +256,69 @@ fn run_corpus(env: &Env, rep: &mut Report, t: &mut Trace, lay: &Layouts) {
     }
 }
 
+/// the selection byte: words with several candidates, then EVERY punctuation key of the keyboard pressed with every selection byte that
+/// is valid for the list on display (1, 2, the last index): the index that comes back lies inside the list that comes back
+fn selection_pass(env: &Env, rep: &mut Report, t: &mut Trace, si: usize, nshards: usize) {
+    let words = ["ami", "cool", "kor", "a", "bol", "desh", "manush", "sesh", "onek", "boi", "din", "e", "(ami", "\"kor", "amar", "tumi"];
+    let puncts: Vec<(u16, char)> = KEYS.iter().filter(|k| !k.0.starts_with("VC_KP_")).filter_map(|k| k.2.map(|c| (k.1, c))).filter(|(_, c)| c.is_ascii_punctuation()).collect();
+    let case = format!("c01-selection-{}", si);
+    t.line(&format!("case {}", case));
+    let xdg = env.fresh_xdg(&case);
+    let mut o = Opts::none(); o.phonetic_suggestion = true; o.english = si % 2 == 1; o.smart_quote = si % 4 >= 2; 
+    let mut s = match Sess::new(t, &env.data, "sp", PHONETIC, o, &xdg) { Some(s) => s, None => return };
+    let mut n = 0usize;
+    for w in words {
+        for (code, pc) in &puncts {
+            n += 1; if n % nshards != si { continue; }
+            for which in 0..3 {
+                s.clear_events();
+                let ob = s.type_text(t, w);
+                let len = match &ob { Obs::Full { cands, .. } => cands.len(), _ => 0 };
+                if len < 2 { s.finish(t); continue; }
+                let selv = match which { 0 => 1, 1 => len - 1, _ => (len / 2).max(1) };
+                let ob = s.key(t, *code, 0, selv as u8);
+                let on = s.imp.ongoing();
+                let typed = format!("{}{}", w, pc);
+                let ov = if ".?!,:;-_)}]'\"".contains(*pc) { Some(selv) } else { None };
+                let ctx = json!({"stream": "c01", "case": case, "layout": PHONETIC, "opts": o.bits_str(), "events": s.events, "at": "punctuation key with a selection"});
+                check_obs(rep, &ctx, true, Some(&typed), &ob, on, true, ov);
+                rep.eval(Some(&format!("sel|{}|{}|{}|{}", o.bits_str(), w, pc, selv))); rep.count("selection-byte-case");
+                if ob == Obs::Panic { t.line("drop sp"); s = match Sess::new(t, &env.data, "sp", PHONETIC, o, &xdg) { Some(s) => s, None => return }; } else { s.finish(t); }
+            }
+        }
+    }
+    t.line("drop sp");
+}
+
+/// the words the DATA FILES name: every key of the bundled auto-correct table (its value is fed to the transliterator when the key is
+/// typed), every suffix key behind a base, every emoticon and every English emoji name — each typed once, key by key, with the list on.
+/// A data row that the code cannot digest (a value in the wrong script, an empty value) shows here and nowhere else.
+fn data_words(env: &Env, rep: &mut Report, t: &mut Trace, si: usize, nshards: usize) {
+    let pools = super::common::WordPools::new(&env.data);
+    let case = format!("c01-data-words-{}", si);
+    t.line(&format!("case {}", case));
+    let xdg = env.fresh_xdg(&case);
+    let mut o = Opts::none(); o.phonetic_suggestion = true; o.english = si % 2 == 0; o.smart_quote = si % 4 < 2;
+    let mut s = match Sess::new(t, &env.data, "dw", PHONETIC, o, &xdg) { Some(s) => s, None => return };
+    let mut words: Vec<String> = pools.ac_keys.clone();
+    for sk in &pools.suffixes { words.push(format!("kaj{}", sk)); }
+    words.extend(pools.emoticons.iter().cloned());
+    words.extend(pools.emoji_names.iter().cloned());
+    for (i, w) in words.iter().enumerate() {
+        if i % nshards != si || w.is_empty() || w.chars().count() > 24 || !w.chars().all(crate::code_ok) { continue; }
+        s.clear_events();
+        let ob = s.type_text(t, w);
+        rep.eval(Some(&format!("dw|{}", w))); rep.count("data-word");
+        if ob == Obs::Panic { rep.violation("C01", "panic", format!("typing the word {:?} (named by the data files) panicked", w), json!({"stream": "c01", "layout": PHONETIC, "opts": o.bits_str(), "events": s.events})); s = match Sess::new(t, &env.data, "dw", PHONETIC, o, &xdg) { Some(s) => s, None => return }; continue; }
+        if s.imp.slowest > TIME_BUDGET_S { rep.violation("C01", "slow-event", format!("typing the word {:?}: an event took {:.2}s", w, s.imp.slowest), json!({"stream": "c01", "layout": PHONETIC, "opts": o.bits_str(), "events": s.events})); s.imp.slowest = 0.0; }
+        // one backspace and the key again (the ignored-key / backspace paths see the same data), then the word ends
+        let last = w.chars().last().unwrap();
+        if s.backspace(t, false) == Obs::Panic || s.key(t, code_for_char(last).unwrap(), 0, 0) == Obs::Panic { rep.violation("C01", "panic", format!("backspace + retype on the word {:?} panicked", w), json!({"stream": "c01", "layout": PHONETIC, "opts": o.bits_str(), "events": s.events})); s = match Sess::new(t, &env.data, "dw", PHONETIC, o, &xdg) { Some(s) => s, None => return }; continue; }
+        s.finish(t);
+    }
+    t.line("drop dw");
+}
+
 pub fn run(env: &Env) -> Report {
     let lay = mk_layouts(env);
     let nshards = 16;
@@ -264,6 +335,8 @@ pub fn run(env: &Env) -> Report {
             history(env, &mut rep, &mut t, &lay, &mut rng, &format!("c01-{}-{}", si, h), l);
         }
         systematic(env, &mut rep, &mut t, &lay, si, nshards, if env.quick() { 6 } else { 32 }, seed);
+        data_words(env, &mut rep, &mut t, si, nshards);
+        selection_pass(env, &mut rep, &mut t, si, nshards);
         if !env.quick() && si == 0 {
             // long-word soak (thorough tier: ~2 minutes): one uncommitted word of 3000 characters over worst-case okkhor patterns
             let xdg = env.fresh_xdg("soak");
